@@ -45,6 +45,11 @@ def run(prop, tier):
     ck.cov['tlaps_proof'] = {'module': 'SpongeLoopProof', 'theorems': ['InitInv', 'Consecution', 'Safety (Spec => []LoopInv)', 'Progress', 'PaddingFits'],
                              'for': 'every rate >= 1, every write length, any number of writes', 'obligations_proved': proved, 'obligations': total,
                              'wall_s': round(time.time() - t0, 1)}
+    p2, t2, out2 = vlib.tlapm(SPEC, 'KmacPadProof', timeout=900, name='kpadproof')
+    ck.cov['tlaps_proof_kmac_pad'] = {'module': 'KmacPadProof', 'theorems': ['PadOK (every length)', 'OldPadWrongExactlyOnBoundaries (D7)'],
+                                      'obligations_proved': p2, 'obligations': t2}
+    if p2 >= 0 and p2 < t2:
+        raise vlib.Undecided('TLAPS: %d of %d obligations of KmacPadProof fail: the proof or the model is wrong\n%s' % (t2 - p2, t2, out2[-1500:]))
     if proved >= 0 and proved < total:
         raise vlib.Undecided('TLAPS: %d of %d obligations of SpongeLoopProof fail: the proof or the model is wrong\n%s' % (total - proved, total, out[-1500:]))
     if proved < 0:
